@@ -64,6 +64,7 @@ func decPriv(algo crypto.SigningAlgorithm, b []byte) string {
 			return "err-other"
 		}
 		enc := sk.Encode()
+		holdKey("DecodePrivateKey", sk, enc)
 		// every produced object encodes to bytes that decode back to an Equal object
 		sk2, err := crypto.DecodePrivateKey(algo, enc)
 		if err != nil || !sk.Equals(sk2) {
@@ -85,6 +86,7 @@ func decPub(algo crypto.SigningAlgorithm, b []byte) string {
 			return "err-other"
 		}
 		enc := pk.Encode()
+		holdKey("DecodePublicKey", pk, enc)
 		pk2, err := crypto.DecodePublicKey(algo, enc)
 		if err != nil || !pk.Equals(pk2) {
 			return "ok " + hx(enc) + " roundtrip-fail"
@@ -105,6 +107,7 @@ func decPubCompressed(algo crypto.SigningAlgorithm, b []byte) string {
 			return "err-other"
 		}
 		enc := pk.EncodeCompressed()
+		holdKey("DecodePublicKeyCompressed", pk, pk.Encode())
 		pk2, err := crypto.DecodePublicKeyCompressed(algo, enc)
 		if err != nil || !pk.Equals(pk2) {
 			return "ok " + hx(enc) + " roundtrip-fail"
